@@ -51,6 +51,41 @@ fn oracle_pair(out: &mut Out, a: u32, b: u32, k: u32) {
     out.check(tab == ab, "timestamp_same", &c, &format!("{:?} vs {:?}", tab, ab));
 }
 
+// derived operators must agree with partial_cmp (also at the undefined distance)
+fn oracle_ops(out: &mut Out, a: u32, b: u32) {
+    let c = format!("cmp {} {}", a, b);
+    let (sa, sb) = (Serial(a), Serial(b));
+    let pc = sa.partial_cmp(&sb);
+    let want = |f: fn(Ordering) -> bool| pc.map_or(false, f);
+    let ok = (sa < sb) == want(|o| o == Ordering::Less)
+        && (sa <= sb) == want(|o| o != Ordering::Greater)
+        && (sa > sb) == want(|o| o == Ordering::Greater)
+        && (sa >= sb) == want(|o| o != Ordering::Less);
+    out.check(ok, "serial_operators_differ_from_partial_cmp", &c, &format!("{:?} lt={} le={} gt={} ge={}", pc, sa < sb, sa <= sb, sa > sb, sa >= sb));
+    let (ta, tb) = (Timestamp::from(a), Timestamp::from(b));
+    let tpc = ta.partial_cmp(&tb);
+    let twant = |f: fn(Ordering) -> bool| tpc.map_or(false, f);
+    let ok = (ta < tb) == twant(|o| o == Ordering::Less)
+        && (ta <= tb) == twant(|o| o != Ordering::Greater)
+        && (ta > tb) == twant(|o| o == Ordering::Greater)
+        && (ta >= tb) == twant(|o| o != Ordering::Less);
+    out.check(ok, "timestamp_operators_differ_from_partial_cmp", &c, &format!("{:?}", tpc));
+}
+
+fn days_from_civil(y: i64, m: i64, d: i64) -> i64 {
+    let y = if m <= 2 { y - 1 } else { y };
+    let era = if y >= 0 { y } else { y - 399 } / 400;
+    let yoe = y - era * 400;
+    let mp = (m + 9) % 12;
+    let doy = (153 * mp + 2) / 5 + d - 1;
+    let doe = yoe * 365 + yoe / 4 - yoe / 100 + doy;
+    era * 146097 + doe - 719468
+}
+
+fn days_in_month(y: i64, m: i64) -> i64 {
+    match m { 1 | 3 | 5 | 7 | 8 | 10 | 12 => 31, 4 | 6 | 9 | 11 => 30, _ => if (y % 4 == 0 && y % 100 != 0) || y % 400 == 0 { 29 } else { 28 } }
+}
+
 fn oracle_add(out: &mut Out, a: u32, n: u32) {
     let c = format!("add {} {}", a, n);
     let r = catch(move || Serial(a).add(n));
@@ -89,6 +124,7 @@ fn main() {
         let obs = match catch(move || Serial(x).partial_cmp(&Serial(y))) { Ok(o) => format!("Ok {}", ord(o)), Err(_) => "Panic".into() };
         out.case(&c, &obs, x != y, "cmp");
         oracle_pair(&mut out, x, y, k);
+        oracle_ops(&mut out, x, y);
         if i % 4 == 0 {
             let c = format!("ccmp {} {}", x, y);
             let o = Serial(x).canonical_cmp(&Serial(y));
@@ -141,6 +177,43 @@ fn main() {
             let c = format!("diffrange {} {}", q, z);
             let rej = Serial(q) == Serial(z) || Serial(z) < Serial(q);
             out.case(&c, if rej { "true" } else { "false" }, q != z, "diffrange");
+        }
+    }
+    // date notation of signature times: YYYYMMDDHHmmSS -> seconds mod 2^32
+    {
+        use std::str::FromStr;
+        // fixed boundary dates first
+        let mut dates: Vec<(i64, i64, i64, i64, i64, i64)> = vec![
+            (1970, 1, 1, 0, 0, 0), (2038, 1, 19, 3, 14, 7), (2038, 1, 19, 3, 14, 8), (2106, 2, 7, 6, 28, 15),
+            (2106, 2, 7, 6, 28, 16), (2106, 2, 7, 6, 28, 17), (2107, 1, 1, 0, 0, 0), (2107, 6, 1, 12, 0, 0),
+            (2242, 3, 16, 12, 56, 32), (2000, 2, 29, 23, 59, 59), (2100, 2, 28, 23, 59, 59), (2100, 3, 1, 0, 0, 0),
+            (9998, 12, 31, 23, 59, 59),
+        ];
+        for _ in 0..(n_pairs / 40) {
+            let y = match r.below(4) { 0 => 2105 + r.below(3) as i64, 1 => 2037 + r.below(3) as i64, 2 => 1970 + r.below(300) as i64, _ => 1970 + r.below(8028) as i64 };
+            let m = 1 + r.below(12) as i64;
+            let d = 1 + r.below(days_in_month(y, m) as u64) as i64;
+            dates.push((y, m, d, r.below(24) as i64, r.below(60) as i64, r.below(60) as i64));
+        }
+        for (y, m, d, h, mi, se) in dates {
+            idx += 1;
+            if !out.wants(idx) { continue; }
+            let text = format!("{:04}{:02}{:02}{:02}{:02}{:02}", y, m, d, h, mi, se);
+            let c = format!("date {} {} {} {} {} {}", y, m, d, h, mi, se);
+            out.begin(&c);
+            let secs = days_from_civil(y, m, d) * 86400 + h * 3600 + mi * 60 + se;
+            let want = secs.rem_euclid(1i64 << 32) as u32;
+            match catch(move || Timestamp::from_str(&text)) {
+                Ok(Ok(t)) => {
+                    out.case(&c, &format!("{}", t.into_int()), secs >= (1i64 << 32), "date");
+                    out.check(t.into_int() == want, "date_notation_not_mod_2_32", &c, &format!("got {} want {}", t.into_int(), want));
+                    // one second later is strictly newer (RFC 1982), also across the wrap
+                    let later = Timestamp::from(want.wrapping_add(1));
+                    out.check(t.partial_cmp(&later) == Some(Ordering::Less), "date_plus_one_not_newer", &c, "");
+                }
+                Ok(Err(_)) => { out.case(&c, "Err", false, "date"); out.check(false, "date_notation_rejected", &c, "valid date rejected"); }
+                Err(e) => { out.case(&c, "Panic", false, "date"); out.check(false, "date_notation_panics", &c, &e); }
+            }
         }
     }
     // thorough: sweep all 2^32 differences from several bases (supporting sweep,
